@@ -43,6 +43,10 @@ CountOf(rows, k, km) == Cardinality({<<j, i>> \in (DOMAIN rows) \X (1..20) :
 Counts(rows, k) == {<<km, CountOf(rows, k, km)>> : km \in AllKmers(rows, k)}
 RowCounts(rows, k) == [j \in DOMAIN rows |-> Counts(<<rows[j]>>, k)]
 
+\* k-mer index (sequence/indexing/kmer_indexing.py): the rows that hold a k-mer, in row order, each once
+IndexOf(rows, k, km) == {j \in DOMAIN rows : \E i \in 1..NWin(rows[j], k) : Window(rows[j], i, k) = km}
+Index(rows, k) == {<<km, IndexOf(rows, k, km)>> : km \in AllKmers(rows, k)}
+
 TotalWindows(rows, w) == LET RECURSIVE S(_)
                              S(j) == IF j = 0 THEN 0 ELSE NWin(rows[j], w) + S(j - 1)
                          IN S(Len(rows))
